@@ -38,7 +38,11 @@ AlterKinds == {"flip_sig", "flip_caveat", "flip_id", "truncate", "text_pad",   \
                \* a required caveat replaced by an unknown one whose text merely resembles it (the required text
                \* followed by more characters, another letter case, other spacing): the token lacks a required
                \* caveat and carries an unknown one
-               "mint_gen_near", "mint_user_near", "mint_time_near"}
+               "mint_gen_near", "mint_user_near", "mint_time_near",
+               \* a THIRD-party caveat appended by the holder (needs no key): alone, and presented together with a
+               \* discharge macaroon the holder minted for it (the slice form macaroon libraries use) - an additional
+               \* caveat either way
+               "add_third_party", "add_third_party_discharged"}
 
 MintKinds == {"mint_no_time", "mint_no_gen", "mint_no_user", "mint_extra_unknown",
               "mint_gen_near", "mint_user_near", "mint_time_near"}
@@ -94,6 +98,8 @@ Alter(kind) ==
             [] kind = "add_time_future" -> add(TimeCav(exp + 100000))
             [] kind = "add_user_other"  -> add(UserCav(OtherUser(u)))
             [] kind = "add_user_same"   -> add(UserCav(u))
+            [] kind = "add_third_party" -> add(UnknownCav)
+            [] kind = "add_third_party_discharged" -> add(UnknownCav)
             [] kind = "mint_no_time"    -> Mint(s, u, <<Gen, UserCav(u)>>)
             [] kind = "mint_no_gen"     -> Mint(s, u, <<UserCav(u), TimeCav(exp)>>)
             [] kind = "mint_no_user"    -> Mint(s, u, <<Gen, TimeCav(exp)>>)
